@@ -55,6 +55,7 @@ func checkC05(c *Ctx, r *Report) {
 	textAllPaths(c, r, "C05.R1.string-all-paths", "C05.R1.parse-all-paths")
 	zeroPadded(c, r, "C05.R3.zero-padded")
 	parseNarrowing(c, r, "C05.R6.parse-narrowing")
+	genericPrefix(c, r, "C05.R2.generic-prefix")
 }
 
 // c05R5: numeric limit agreement: the TTL parser accepts exactly the range the 32-bit header field (and its printer) has.
